@@ -50,6 +50,13 @@ Open Scope string_scope.
 NAME_SETS = [('p', 'q', 'r'), ('a', 'b', 'c'), ('x0', 'y_1', 'z'),
              ('req', 'gnt', 'busy'), ('prev', 'aux', 'p_prev')]
 
+# arithmetic comparisons used as opaque atoms (source text)
+ATOM_TEXTS = ['(x < 2)', '(x = y)', '((x + 1) >= y)', '(y != 0)',
+              '((2 * x) <= (y - 1))', '(x # y)', '((x % 2) = 0)']
+# proposition symbols of a case: names of Boolean variables or indices into
+# ATOM_TEXTS
+ATOM_SETS = [('p', 'q', 0), ('p', 1, 2), (3, 4, 'r'), ('a', 5, 6)]
+
 V = lambda n: ('v', n)
 TT, FF = ('c', True), ('c', False)
 
@@ -91,6 +98,21 @@ def run_case(case, maxlen):
         return res
     res['out'] = out
     if case['kind'] != 'past':
+        if case['until']:
+            # prophecy testers: fair solutions on all words u v^omega
+            try:
+                prob = E.Problem(out, case['uservars'])
+                nw = 0
+                for (u, v) in lasso_words(case['uservars'], case['maxw']):
+                    nw += 1
+                    fl = E.lasso_check(prob, f, u, v)
+                    if fl:
+                        res['failure'] = fl
+                        break
+                res['lassos'] = nw
+            except (E.Unsupported, AssertionError) as e:
+                res['error'] = ('returned formulas are not Boolean actions: '
+                                + repr(e))
         return res
     try:
         prob = E.Problem(out, case['uservars'])
@@ -110,16 +132,52 @@ def run_case(case, maxlen):
     return res
 
 
+_WORDS = {}
+
+
+def lasso_words(names, maxw):
+    """All (u, v) with |u| + |v| <= maxw, |v| >= 1, over valuations of names."""
+    key = (tuple(names), maxw)
+    if key not in _WORDS:
+        import itertools
+        vals = [dict(zip(names, b))
+                for b in itertools.product((False, True), repeat=len(names))]
+        ws = []
+        for a in range(0, maxw):
+            for b in range(1, maxw + 1 - a):
+                for w in itertools.product(vals, repeat=a + b):
+                    ws.append((list(w[:a]), list(w[a:])))
+        _WORDS[key] = ws
+    return _WORDS[key]
+
+
 def _work(args):
     return run_case(*args)
 
 
-def make_case(rng, f, names, until, maxlen, kind='past'):
-    s = G.show(f, rng)
+def atom_symbols(symbols):
+    """symbols (names / indices into ATOM_TEXTS) -> (names-or-keys, key->text)"""
+    names, text = [], {}
+    for x in symbols:
+        if isinstance(x, int):
+            t = ATOM_TEXTS[x]
+            k = E.atom_key(E.parser().parse(t))
+            text[k] = t
+            names.append(k)
+        else:
+            names.append(x)
+    return names, text
+
+
+def make_case(rng, f, names, until, maxlen, kind='past', atoms=None):
+    if atoms:
+        f = G.atomize(f, set(atoms))
+    s = G.show(f, rng, atoms)
     traces = [[{v: rng.random() < 0.5 for v in names} for _ in range(maxlen)]
               for _ in range(2)]
     return dict(formula=f, source=s, until=until, uservars=list(names),
-                kind=kind, sample_traces=traces)
+                kind=kind, sample_traces=traces,
+                maxw=maxlen - 1, atoms=atoms or {})
 
 
 def generate(ctx):
@@ -141,6 +199,17 @@ def generate(ctx):
         d = (2, 3, 4, 4)[i % 4]
         f = G.gen(rng, d, names)
         cases.append(make_case(rng, f, names, flag(), maxlen))
+    # formulas over arithmetic comparisons (opaque atoms)
+    n_atom = 120 if ctx.thorough else 36
+    for i in range(n_atom):
+        names, text = atom_symbols(ATOM_SETS[i % len(ATOM_SETS)])
+        if i < 2 * len(ATOM_SETS):
+            a = ('v', [k for k in names if k in text][i % 2 - 1])
+            f = ((('--X', '-X')[i % 2], a) if i < len(ATOM_SETS) else
+                 ('S', ('-X', a), ('--X', a)))
+        else:
+            f = G.gen(rng, (2, 3, 4)[i % 3], names)
+        cases.append(make_case(rng, f, names, flag(), maxlen, atoms=text))
     # formulas with future operators
     n_mixed = 160 if ctx.thorough else 40
     tries = 0
@@ -166,8 +235,9 @@ def generate(ctx):
 
 def run_cases(ctx, cases, maxlen):
     args = [(c, maxlen) for c in cases]
-    if ctx.thorough and len(cases) > 64:
-        with multiprocessing.get_context('fork').Pool(8) as pool:
+    if len(cases) > 64:
+        n = 8 if ctx.thorough else 4
+        with multiprocessing.get_context('fork').Pool(n) as pool:
             return pool.map(_work, args, chunksize=8)
     return [_work(a) for a in args]
 
@@ -210,7 +280,7 @@ def coq_group(i, res, maxlen):
 
 def public_case(case):
     return {k: case[k] for k in ('formula', 'source', 'until', 'uservars',
-                                 'kind')}
+                                 'kind', 'maxw', 'atoms') if k in case}
 
 
 def classify(f):
@@ -234,6 +304,7 @@ def correspond(ctx):
     ctx.log('implementation + oracle done')
     mism = []
     nseq = 0
+    nlasso = 0
     nontrivial = set()
     ops_seen = {}
     aux_hist = {}
@@ -246,16 +317,19 @@ def correspond(ctx):
             continue
         if res['failure']:
             fl = res['failure']
+            where = ({'trace': fl['trace']} if 'trace' in fl
+                     else {'u': fl['u'], 'v': fl['v']})
             mism.append(Mismatch(
-                'real testers/translated formula disagree with the past '
+                'real testers/translated formula disagree with the '
                 f'semantics: {fl["kind"]} at position {fl["position"]}',
-                dict(public_case(case), trace=fl['trace']),
+                dict(public_case(case), **where),
                 impl=fl, property_fails=True))
             continue
         for o in G.operators(f):
             ops_seen[o] = ops_seen.get(o, 0) + 1
         k = len(res['out']['names'])
         aux_hist[k] = aux_hist.get(k, 0) + 1
+        nlasso += res.get('lassos', 0)
         if res['stats']:
             st = res['stats']
             nseq += st['sequences']
@@ -296,7 +370,9 @@ def correspond(ctx):
     ctx.cov['evaluations'] += nseq + n_past * (2 ** nu) ** maxlen
     ctx.cov['distinct_nontrivial'] += len(nontrivial)
     ctx.cov['rule'] = (
-        'formulas over 3 Boolean variables (5 name sets) and TRUE/FALSE with '
+        'formulas over 3 proposition symbols (Boolean variables, 5 name sets, '
+        'or arithmetic comparisons such as ((x + 1) >= y) treated as opaque '
+        'atoms) and TRUE/FALSE with '
         '~ /\\ \\/ => <=> ^ ite -X --X -[] -<> S: a fixed corpus (sharing and '
         'collision cases of previous), all/sampled formulas of depth <= 1 and '
         'past operators over them, random formulas of nesting depth 2..4; '
@@ -317,6 +393,7 @@ def correspond(ctx):
         formulas=len(cases), past_only=n_past, with_future_operators=n_mixed,
         max_sequence_length=maxlen,
         sequences_checked_python=nseq,
+        lasso_words_checked_python=nlasso,
         sequences_checked_coq=n_past * (2 ** nu) ** maxlen,
         coq_terms=len(vals), mismatches=len(mism),
         operator_histogram=ops_seen, auxiliary_variables_histogram=aux_hist,
@@ -348,6 +425,22 @@ def oracle_case(case, maxlen=5):
     except Exception as e:
         return Failing('translate raised / returned a non-Boolean action: '
                        + repr(e), public_case(case), key=classify(f))
+    if case.get('kind', 'past') != 'past':
+        if not case['until']:
+            return None
+        for (u, v) in lasso_words(case['uservars'], maxlen - 1):
+            fail = E.lasso_check(prob, f, u, v)
+            if fail:
+                return Failing(
+                    f'{case["source"]} (until=True): {fail["kind"]} at '
+                    f'position {fail["position"]} of u v^omega',
+                    dict(public_case(case), u=u, v=v,
+                         returned=out['strings']),
+                    expected=fail.get('expected', 'exactly one fair solution'),
+                    got=fail.get('got', fail.get('candidates')),
+                    key=classify(f),
+                    replay_cmd='./check C15 --replay <this file>')
+        return None
     for n in range(1, maxlen + 1):
         fail, _ = E.explore(prob, f, n)
         if fail:
@@ -371,7 +464,7 @@ def shrink(ctx, case, maxlen):
     for g in subs:
         if G.size(g) >= G.size(f):
             break
-        c = dict(case, formula=g, source=G.show(g))
+        c = dict(case, formula=g, source=G.show(g, None, case.get('atoms')))
         r = oracle_case(c, maxlen)
         if r:
             return r
@@ -380,29 +473,38 @@ def shrink(ctx, case, maxlen):
 
 def search(ctx, broken, mismatches):
     maxlen = 5 if ctx.thorough else 4
+    found = {}      # one replay per class of failure (F5, F10, other)
     for m in mismatches:
         if not m.case or 'formula' not in m.case:
             continue
         case = dict(m.case)
-        if case.get('kind') != 'past':
+        k = classify(totuple(case['formula']))
+        if k in found:
             continue
         r = oracle_case(case, maxlen)
         if r:
-            return [shrink(ctx, case, maxlen)]
+            r = shrink(ctx, case, maxlen)
+            found.setdefault(r.key, r)
+    if found:
+        return list(found.values())
     rng = ctx.rng
-    cands = []
-    for names in NAME_SETS[:1]:
-        cands += corpus(names)
-    cands += G.small_formulas(NAME_SETS[0])
-    cands += [G.gen(rng, (2, 3, 4)[i % 3], NAME_SETS[0])
-              for i in range(600 if ctx.thorough else 200)]
-    for f in cands:
-        for until in (False,):
-            case = make_case(rng, f, NAME_SETS[0], until, maxlen)
-            case['source'] = G.show(f)
-            r = oracle_case(case, maxlen)
-            if r:
-                return [shrink(ctx, case, maxlen)]
+    names = NAME_SETS[0]
+    cands = [(f, 'past') for f in corpus(names)]
+    cands += [(f, 'past') for f in G.small_formulas(names)]
+    for i in range(600 if ctx.thorough else 200):
+        if i % 4 == 3:
+            f = G.gen(rng, (1, 2, 2)[i % 3], names[:2], future=True)
+            if G.operators(f) & {'[]', '<>', 'U'}:
+                cands.append((f, 'mixed'))
+                continue
+        cands.append((G.gen(rng, (2, 3, 4)[i % 3], names), 'past'))
+    for f, kind in cands:
+        vs = names if kind == 'past' else names[:2]
+        case = make_case(rng, f, vs, kind == 'mixed', maxlen, kind=kind)
+        case['source'] = G.show(f)
+        r = oracle_case(case, maxlen)
+        if r:
+            return [shrink(ctx, case, maxlen)]
     return []
 
 
@@ -413,7 +515,9 @@ def replay(path):
         print('nothing to replay in', path)
         return 2
     case = dict(case, kind=case.get('kind', 'past'))
-    r = oracle_case(case, max(5, len(case.get('trace', []))))
+    n = len(case.get('trace', [])) or (
+        len(case.get('u', [])) + len(case.get('v', [])) + 1)
+    r = oracle_case(case, max(5, n))
     if r:
         print('still fails:', r.what)
         print(' required:', r.expected, ' implementation:', r.got)
